@@ -511,6 +511,108 @@ REFILTER_CLASS = "refilter_inclusive_limits"     # finding FC11b
 REFILTER_ORACLE = []      # reuse of hmmer results that does not give what a fresh run with the same limits gives
 
 
+def rre_cycles(chk, rng, total):
+    """ RREFinderResults (a module whose results are lists of hmmer hits per gene and per protocluster) through the
+        cycles of the property, judged by the property's own clauses (no Gallina model): results saved under (cutoff0,
+        length0) are regenerated under options that are equal, stricter or more lenient; accepted results must (a) hold
+        only hits that pass the options, (b) add to a record exactly the domains their own saved JSON describes: the JSON
+        they save regenerates (same options, same record) to results that save to the identical text and add the same
+        domains; more lenient options must discard the results """
+    from Bio.Seq import Seq
+    from antismash import main
+    from antismash.common import json as as_json
+    from antismash.common.hmmer import HmmerHit
+    from antismash.common.secmet import Record
+    from antismash.common.secmet.features import CDSFeature
+    from antismash.common.secmet.locations import FeatureLocation
+    from antismash.config import build_config, destroy_config, update_config
+    from antismash.modules import rrefinder
+    from antismash.modules.rrefinder.rrefinder import RREFinderResults
+
+    def build_record():
+        record = Record(Seq("ATGGCAGCAGCAGAA" * 200), transl_table=11)
+        record.id = "rec"
+        for k in range(4):
+            location = FeatureLocation(150 + 600 * k, 690 + 600 * k, 1)
+            record.add_cds_feature(CDSFeature(location, locus_tag=f"g{k}",
+                                              translation=record.get_aa_translation_from_location(location)))
+        return record
+
+    def domains_of(results):
+        record = build_record()
+        results.add_to_record(record)
+        return sorted((d.locus_tag, d.get_name(), d.score, str(d.location)) for d in record.get_antismash_domains())
+    destroy_config()
+    options = build_config(["--rre"], isolated=True, modules=main.get_all_modules())
+    try:
+        for _ in range(total):
+            record = build_record()
+            cut0, len0 = rng.choice([20.0, 25.0, 30.0]), rng.choice([40, 50, 60])
+            hits, by_proto = {}, {}
+            for k in range(4):
+                if rng.random() < 0.3:
+                    continue
+                cds = record.get_cds_by_name(f"g{k}")
+                hits[f"g{k}"] = []
+                for j in range(rng.choice([1, 1, 2])):
+                    start = rng.choice([5, 10, 20])
+                    end = start + rng.choice([len0, len0 + 1, len0 + 10, 70, 100])
+                    score = rng.choice([cut0, cut0 + 0.5, cut0 + 5.0, 35.0, 40.0, 60.0])
+                    if end - start < len0 or score < cut0 or end > len(cds.translation):
+                        continue
+                    hits[f"g{k}"].append(HmmerHit(location=str(cds.get_sub_location_from_protein_coordinates(start, end)),
+                                                  label=f"RRE{j}", locus_tag=f"g{k}", domain=f"RRE{j}", evalue=1e-10, score=score,
+                                                  identifier=f"RREFam00{j + 1}.1", description="an RRE", protein_start=start,
+                                                  protein_end=end, translation=cds.translation[start:end]))
+                if not hits[f"g{k}"]:
+                    del hits[f"g{k}"]
+                else:
+                    by_proto.setdefault(rng.choice([1, 2]), []).append(f"g{k}")
+            first = RREFinderResults(record.id, cut0, len0, by_proto, hits)
+            text0 = as_json.dumps(first.to_json())
+            cut1 = rng.choice([cut0, cut0, cut0 + 5.0, 35.0, 45.0, cut0 - 5.0])
+            len1 = rng.choice([len0, len0, len0 + 10, 70, len0 - 10])
+            update_config({"rre_cutoff": cut1, "rre_min_length": len1})
+            chk.evaluations += 1
+            second = rrefinder.regenerate_previous_results(as_json.loads(text0), record, options)
+            lenient = cut1 < cut0 or len1 < len0
+            chk.count("RREFinder:" + ("more_lenient_options" if lenient else "same_options" if (cut1, len1) == (cut0, len0)
+                                     else "stricter_options"))
+            info = {"saved_under": [cut0, len0], "reused_under": [cut1, len1],
+                    "hits": {g: [(h.score, h.protein_end - h.protein_start) for h in hs] for g, hs in hits.items()}}
+            bad = None
+            if lenient:
+                if second is not None:
+                    bad = "results saved under stricter settings are reused under more lenient ones"
+            elif second is None:
+                bad = "results are discarded although the options are the same or stricter"
+            else:
+                second = rrefinder.run_on_record(record, second, options)
+                text1 = as_json.dumps(second.to_json())
+                doms1 = domains_of(second)
+                third = rrefinder.regenerate_previous_results(as_json.loads(text1), record, options)
+                if third is None:
+                    bad = "results regenerated under these options cannot be regenerated from their own saved form"
+                else:
+                    third = rrefinder.run_on_record(record, third, options)
+                    if as_json.dumps(third.to_json()) != text1:
+                        bad = "regenerated results do not save to identical JSON"
+                    elif domains_of(third) != doms1:
+                        bad = ("regenerated results add other domains to the record than the results regenerated from their own "
+                               f"saved form: {doms1} / {domains_of(third)}")
+                    elif any(d[2] < cut1 for d in doms1):
+                        bad = f"a domain under the requested cutoff {cut1} is added to the record: {doms1}"
+                    elif (cut1, len1) == (cut0, len0) and (text1 != text0 or doms1 != domains_of(first)):
+                        bad = "with unchanged options the regenerated results differ from the original ones"
+            if bad:
+                chk.violation("counterexample", "RREFinderResults: " + bad,
+                              {"theorem_or_correspondence": "C11 save / regenerate cycle (module results, judged by the clauses of "
+                                                            "the property)", "input": info})
+                break
+    finally:
+        destroy_config()
+
+
 def impl_hmmer(args):
     from antismash.common.hmmer import HmmerResults
     from antismash.detection import cluster_hmmer
@@ -2469,6 +2571,12 @@ def run(chk):
                           f"{len(bad)} case(s)" + ("" if outside else f" (class {REFILTER_CLASS}, not listed as known)"),
                           {"theorem_or_correspondence": "C11_hmmer_refilter_as_fresh_run_partial / HmmerResults.refilter vs "
                                                         "hmmer.build_hits", "input": worst})
+
+    try:
+        rre_cycles(chk, rng, 150 if chk.tier == "quick" else 3000)
+    except Exception as exc:  # pylint: disable=broad-except
+        chk.violation("broken-correspondence", f"the RREFinder save/regenerate stream failed: {type(exc).__name__}: {exc}"[:300],
+                      {"theorem_or_correspondence": "C11 save / regenerate cycle (RREFinderResults)"})
 
     # fn 5
     for _ in range(n[5]):
